@@ -8,7 +8,8 @@ LEVEL = 'exploration'
 RES = {0: 'OK', 1: 'NA', 2: 'FAIL'}
 T0 = 1500000000            # aggregation time of the signatures used with certificates
 KEY = b'anon'
-EXT_BEHAVIOURS = ['honest', 'other-root', 'other-input-hash', 'other-aggr-time', 'altered-right-link', 'status-error', 'bad-mac', 'no-reply', 'wrong-id', 'error-pdu']
+EXT_BEHAVIOURS = ['honest', 'other-root', 'other-input-hash', 'other-aggr-time', 'altered-right-link', 'surplus-right-link', 'missing-right-link', 'status-error', 'bad-mac', 'no-reply', 'wrong-id', 'error-pdu']
+WRONG_SHAPE_EXT = ('surplus-right-link', 'missing-right-link')
 FAILING_EXT = ('status-error', 'bad-mac', 'no-reply', 'wrong-id', 'error-pdu')
 
 
@@ -110,6 +111,15 @@ class Extender:
                 chain.links[i] = (False, gen._flip_digest(chain.links[i][1], rng))
             else:
                 self.effective = 'honest'
+        elif b == 'surplus-right-link':
+            # the honest links followed by one more right link (the times stay as requested: the shape no longer fits them)
+            chain.links.append((False, gen.rnd_imprint(rng, 1)))
+        elif b == 'missing-right-link':
+            rights = [i for i, (l, sb) in enumerate(chain.links) if not l]
+            if rights:
+                del chain.links[rights[-1]]
+            else:
+                chain.links.append((False, gen.rnd_imprint(rng, 1)))
         if b == 'status-error':
             return 200, 0, S.ext_response(req, None, KEY, status=rng.choice([0x101, 0x104, 0x200, 0x300]), errmsg='no')
         if b == 'error-pdu':
@@ -146,6 +156,9 @@ def expect(policy, sc):
             return ('OK',)
         if ext in ('other-root', 'altered-right-link'):
             return ('FAIL', {'PUB-01'})
+        if ext in WRONG_SHAPE_EXT:
+            # another root; a client may also refuse the reply because its shape does not fit its times
+            return ('ANY', [('FAIL', {'PUB-01', 'PUB-02'}), ('NA',)])
         if ext == 'other-aggr-time':
             return ('FAIL', {'PUB-02', 'PUB-01', 'PUB-03'})
         if ext == 'other-input-hash':
@@ -207,6 +220,11 @@ def expect(policy, sc):
             return ('NA',)
         if ext_ok:
             return ('OK',)
+        if ext in WRONG_SHAPE_EXT and kind == 'nocal':
+            return None     # the signature has no right links of its own to reproduce; a shape that does not fit the reply's times is C08's subject: observed, not judged
+        if ext in WRONG_SHAPE_EXT:
+            # the reply does not reproduce the signature's right links: never OK
+            return ('ANY', [('FAIL', {'CAL-04', 'CAL-03', 'CAL-01', 'CAL-02'}), ('NA',)])
         if kind == 'nocal':
             if ext in ('other-root', 'altered-right-link'):
                 return ('OK',)          # nothing in the signature contradicts another calendar root / history: the reply is authentic and consistent with the signature
@@ -223,6 +241,10 @@ def expect(policy, sc):
         if sc['userpub'] is not None:
             return expect('userpub', sc)
         e = expect('pubfile', sc)
+        if e[0] == 'ANY' and any(a[0] == 'NA' for a in e[1]):
+            # the publications-file branch may end inconclusive: then the key-based branch decides
+            k = expect('key', sc)
+            return ('ANY', [a for a in e[1] if a[0] != 'NA'] + (k[1] if k[0] == 'ANY' else [k]))
         if e[0] != 'NA':
             return e
         k = expect('key', sc)
